@@ -4,7 +4,7 @@
    The 14 generated tables (Gen/ConfigSchemas.v, re-read from the config.go files at every run) are shown to
    satisfy the obligations by computation, so the generic statements hold of every section. *)
 From Coq Require Import String List ZArith Bool.
-From V Require Import Model.C15_Config Model.C15_Valid Model.C15_Manager Gen.ConfigSchemas Gen.ConfigValidators Proofs.C15_Config Proofs.C15_Tables Proofs.C15_Manager.
+From V Require Import Model.C15_Config Model.C15_Valid Model.C15_Manager Model.C15_Custom Gen.ConfigSchemas Gen.ConfigValidators Gen.ConfigCustoms Proofs.C15_Config Proofs.C15_Tables Proofs.C15_Manager.
 From V Require Import Model.C15_Check Proofs.C15_Monitor.
 Import ListNotations.
 Open Scope string_scope.
@@ -84,10 +84,18 @@ Theorem validator_of_is_source S (orc : oracle) (c : cfg_view) : In S all_schema
 Proof. exact (gen_validator_of_model S orc c). Qed.
 Print Assumptions validator_of_is_source.
 
-(* the remaining hand-transcribed load rules (LCustom) were made from the current source text *)
+(* every load / save rule outside the generic rule set (LCustom / SCustom) is either translated from the source to the
+   model's rule (Gen/ConfigCustoms.v against model_custom_rules) or pinned to the hash of its source text *)
 Theorem customs_pinned : forallb custom_pin_ok all_schemas = true.
 Proof. exact customs_pinned_l. Qed.
 Print Assumptions customs_pinned.
+
+(* crdt trusted_peers: the loop of applyJSONConfig and the branch of toJSONConfig, as translated from the source and
+   executed on the Config members TrustAll / TrustedPeers, are the model's custom_load *)
+Theorem customs_source_is_model : exists F, custom_sem gen_custom_rules "crdt.trusted_peers" = Some F
+  /\ forall k cur v, F v = custom_load "crdt.trusted_peers" k cur v.
+Proof. exact customs_source_is_model_l. Qed.
+Print Assumptions customs_source_is_model.
 
 (* for every component the default configuration is valid (whatever the external checks answer) *)
 Theorem defaults_valid S orc : In S all_schemas -> validator_of (sname S) orc (cget S (defaults S)) = true.
